@@ -7,3 +7,4 @@ open Neutrino.Store
 #print axioms C07_rolled_back_not_found
 #print axioms C07_refused
 #print axioms C07_failed_append_unchanged
+#print axioms C07_failed_filter_append_unchanged
